@@ -230,7 +230,7 @@ CHECKS = {
         "level": "exploration",
         "budget": {"quick": 40, "thorough": 600},
         "rule": ("each evaluation declares 1-12 candidate addresses (weights 0, 1, 2, 3, 10, 1000, 2^32-1; untagged and two locations; both families) plus "
-                 "0-5 addresses for the NS/MX target, compiles them to a real CDB (3 runs in 4) or RocksDB with v1 / v2 keys (the answer code differs per storage layout) and lets 1-4 client tasks query concurrently (max answer 1..8 through "
+                 "0-5 addresses for the NS/MX target, compiles them to a real CDB (9 runs in 10) or RocksDB with v1 / v2 keys (the answer code differs per storage layout) and lets 1-4 client tasks query concurrently (max answer 1..8 through "
                  "the request context) with the package's random source seeded from the scenario, so a run is repeatable. Every response is checked: "
                  "count = min(max, visible positive-weight candidates), no repetition, only declared visible candidates, weight 0 never served while the "
                  "name still exists, at most one glue address per family. One run in ten adds 20000 draws with max answer 1 and a chi-square test "
